@@ -422,6 +422,9 @@ func genShared(g *gen, w *bufio.Writer, rounds int) {
 			if v[len(v)-1] < B/10 {
 				v[len(v)-1] += B / 10
 			}
+			if words >= 100 {
+				v[len(v)-1] = B/10 + Word(g.r.Uint64()%(B/3)) // leading digit 1..4
+			}
 			d := new(decimal.Decimal).SetPrec(uint(19 * (words + 2)))
 			d.SetBitsExp(v, int64(g.r.Intn(40)-20))
 			return d
@@ -429,6 +432,14 @@ func genShared(g *gen, w *bufio.Writer, rounds int) {
 		xs := make([]*decimal.Decimal, nops)
 		for i := range xs {
 			xs[i] = mk(1 + g.r.Intn(70))
+		}
+		if it%2 == 0 {
+			// long division on the recursive path: divisor of >= 100 words whose top word needs a
+			// normalisation factor > 1, dividend about twice as long
+			xs[3] = mk(100 + g.r.Intn(60))
+			xs[2] = mk(200 + g.r.Intn(120))
+			// squaring above the Karatsuba threshold with a length that is not p<<i, p <= 50
+			xs[1] = mk([]int{51, 75, 101, 131, 203}[g.r.Intn(5)])
 		}
 		snap := make([]string, nops)
 		for i, x := range xs {
@@ -442,6 +453,8 @@ func genShared(g *gen, w *bufio.Writer, rounds int) {
 			z.Mul(xs[0], xs[1])
 			sb.WriteString(z.Text('p', 0))
 			z.Quo(xs[2], xs[3])
+			sb.WriteString(z.Text('p', 0))
+			z.Mul(xs[1], xs[1])
 			sb.WriteString(z.Text('p', 0))
 			z.Add(xs[4], xs[5])
 			sb.WriteString(z.Text('p', 0))
